@@ -58,6 +58,16 @@ fn exercise_regular(sm: &SourceMap, text: &str, out: &mut String) {
             Err(_) => out.push_str(" ser=SER-FAILED"),
         }
         let _ = sm.to_data_url().map(|u| decode_data_url(&u).is_ok());
+        // the same map with its name table removed through the public setter: tokens keep their (now dangling) name ids
+        // in memory, every name accessor must answer "none" and what is written must still decode (no name, no fifth field)
+        let mut bare = sm.clone();
+        bare.remove_names();
+        let named = bare.tokens().any(|t| t.has_name() || t.get_name().is_some() || t.to_tuple().3.is_some());
+        let mut buf = vec![];
+        let again = bare.to_writer(&mut buf).is_ok() && decode_slice(&buf).is_ok();
+        if named || !again {
+            let _ = write!(out, " nonames={}", if named { "NAME-AFTER-REMOVE-FAILED" } else { "REDECODE-FAILED" });
+        }
     } else {
         out.push_str(" ser=skipped");
     }
